@@ -13,12 +13,13 @@ let show_ev = function
   | EComplete (k, o) -> L [Sym "complete"; show_kind k; N (int_of_n o)]
   | EAbort (k, o) -> L [Sym "abort"; show_kind k; N (int_of_n o)]
 let b x = num x = 1
-(* in: (EV...) (KIND HEAD HEAD_AFTER HAS_COMMITS BEFORE AFTER OK DRY)   out: (EV...) EFFECT *)
+(* in: (EV...) (KIND HEAD HEAD_AFTER HAS_COMMITS BEFORE AFTER OK DRY [HEAD_KNOWN])   out: (EV...) EFFECT *)
 let c02_step body = match parse_many body with
-  | [j; L [k; h; ha; hc; bf; af; ok; dry]] ->
+  | [j; L (k :: h :: ha :: hc :: bf :: af :: ok :: dry :: rest)] ->
+      let hk = (match rest with [x] -> b x | _ -> true) in
       let i = { i_kind = kind_of k; i_head = n_of_int (num h); i_head_after = n_of_int (num ha);
                 i_has_commits = b hc; i_before = b bf; i_after = b af;
-                i_exit_ok = b ok; i_dry_run = b dry } in
+                i_exit_ok = b ok; i_dry_run = b dry; i_head_known = hk } in
       let (j', e) = step (List.map ev_of (list j)) i in
       show (L (List.map show_ev j')) ^ " " ^
       (match e with NoEffect -> "noeffect" | Rewrite (k, o) -> show (L [Sym "rewrite"; show_kind k; N (int_of_n o)]))
